@@ -763,6 +763,10 @@ def get_time_maps_from_alignment(
             np.where(np.logical_and(score_onsets == u, score_durations > 0))[0]
             for u in score_unique_onsets
         ]
+        # onsets at which only ornaments are matched do not take part
+        keep = np.array([len(u) > 0 for u in score_unique_onset_idxs], dtype=bool)
+        score_unique_onsets = score_unique_onsets[keep]
+        score_unique_onset_idxs = [u for u in score_unique_onset_idxs if len(u) > 0]
 
     else:
         score_unique_onset_idxs = [
